@@ -482,7 +482,7 @@ func dischargeAll(jobs []*obJob, timeoutMs int, workers int, scratch string) {
 	if len(undecided) > 0 && len(undecided) <= 8 {
 		for _, j := range undecided {
 			o := j.o
-			big := min(3*timeoutMs, 90000)
+			big := min(2*timeoutMs, 40000)
 			var r solveResult
 			if !o.Goal.isFalse() {
 				r = solve(j.v.script(o, nil, true), scratch, o.Name+"_retry", big/2, "")
